@@ -1,4 +1,947 @@
-//! C05 — stub, replaced when the property's harness lands.
-use crate::util::{Em, Rng};
+//! C05 — every evaluation metric equals its definition recomputed from first principles.
+//!
+//! Ops (one self-contained request per line):
+//!   cm ty=n|s p=.. t=..            confusion matrix + all derived scores (usize / bool / String labels)
+//!   roc s=<f32 bits> y=0/1         ROC curve, thresholds, AUC
+//!   logloss s=<f32 bits> y=0/1     log-loss (libm `ln`: tolerant token)
+//!   reg  w=64|32 p=.. a=.. b=..    regression scores on lattice inputs, compared bit for bit
+//!   regt w=64|32 p=.. a=.. b=..    regression scores on generic inputs, tolerant tokens (+ msle)
+//!   sil x=.. l=..                  silhouette score on integer points
+//!   pearson x=.. p=..              Pearson coefficients
+//! The oracle recomputes each score naively in f64 from the raw vectors (never from linfa's own
+//! intermediate values) and replays the call on a permuted copy of the input.
+use crate::util::*;
+use linfa::prelude::*;
+use ndarray::{Array1, Array2};
+use std::collections::BTreeSet;
+use std::fmt::Display;
+use std::panic::{catch_unwind, AssertUnwindSafe};
 
-pub fn run(_em: &mut Em, _rng: &mut Rng) {}
+fn h32c(x: f32) -> String {
+    if x.is_nan() { "nan".into() } else { hex32(x) }
+}
+fn tl(x: f64) -> String {
+    format!("~{}", hex64c(x))
+}
+
+// ------------------------------------------------------------------ confusion matrix
+
+/// `ConfusionMatrix` keeps its fields private; its `Debug` output prints the members and every
+/// cell, which is what is parsed here (public API only).
+fn parse_cm<A: Display>(cm: &ConfusionMatrix<A>) -> (Vec<String>, Vec<Vec<u64>>) {
+    let s = format!("{:?}", cm);
+    let lines: Vec<&str> = s.lines().filter(|l| !l.trim().is_empty()).collect();
+    if lines.is_empty() {
+        return (vec![], vec![]);
+    }
+    let members: Vec<String> = lines[0].split(" | ").skip(1).map(|x| x.trim().to_string()).collect();
+    let mut cells = vec![];
+    for l in &lines[1..] {
+        let row: Vec<u64> = l.split(" | ").skip(1).map(|x| x.trim().parse::<f32>().expect("cell") as u64).collect();
+        cells.push(row);
+    }
+    (members, cells)
+}
+
+struct CmObs {
+    members: Vec<String>,
+    cells: Vec<Vec<u64>>,
+    scores: [f32; 6], // acc prec rec f1 fh mcc
+    ova: Vec<Vec<Vec<u64>>>,
+    ovo: Vec<Vec<Vec<u64>>>,
+    ovap: Vec<f32>,
+    ovar: Vec<f32>,
+    ovaf: Vec<f32>,
+}
+impl CmObs {
+    fn line(&self) -> String {
+        format!(
+            "ok members={} cells={} acc={} prec={} rec={} f1={} fh={} mcc={} ova={} ovo={} ovap={} ovar={} ovaf={}",
+            self.members.join(","),
+            list2(self.cells.iter().map(|r| r.iter()), |x| x.to_string()),
+            h32c(self.scores[0]),
+            h32c(self.scores[1]),
+            h32c(self.scores[2]),
+            h32c(self.scores[3]),
+            h32c(self.scores[4]),
+            h32c(self.scores[5]),
+            list3(self.ova.iter().map(|m| m.iter().map(|r| r.iter())), |x| x.to_string()),
+            list3(self.ovo.iter().map(|m| m.iter().map(|r| r.iter())), |x| x.to_string()),
+            list(self.ovap.iter(), |x| h32c(*x)),
+            list(self.ovar.iter(), |x| h32c(*x)),
+            list(self.ovaf.iter(), |x| h32c(*x)),
+        )
+    }
+}
+
+fn observe_cm<L: linfa::dataset::Label + Display>(pred: &[L], truth: &[L], tok: &dyn Fn(&L) -> String) -> Result<CmObs, String> {
+    let p = Array1::from(pred.to_vec());
+    let t = Array1::from(truth.to_vec());
+    let cm = match p.confusion_matrix(&t) {
+        Ok(cm) => cm,
+        Err(linfa::Error::MismatchedShapes(_, _)) => return Err("err MismatchedShapes".into()),
+        Err(e) => return Err(format!("err {:?}", e)),
+    };
+    let (disp, cells) = parse_cm(&cm);
+    // map the displayed member back to the canonical token of the label
+    let mut all: Vec<&L> = pred.iter().chain(truth.iter()).collect();
+    all.sort();
+    all.dedup();
+    let members: Vec<String> = disp.iter().map(|d| all.iter().find(|l| format!("{}", l) == *d).map(|l| tok(l)).unwrap_or_else(|| format!("?{}", d))).collect();
+    let ova_cms = cm.split_one_vs_all();
+    let ovo_cms = cm.split_one_vs_one();
+    Ok(CmObs {
+        members,
+        cells,
+        scores: [cm.accuracy(), cm.precision(), cm.recall(), cm.f1_score(), cm.f_score(0.5), cm.mcc()],
+        ova: ova_cms.iter().map(|c| parse_cm(c).1).collect(),
+        ovo: ovo_cms.iter().map(|c| parse_cm(c).1).collect(),
+        ovap: ova_cms.iter().map(|c| c.precision()).collect(),
+        ovar: ova_cms.iter().map(|c| c.recall()).collect(),
+        ovaf: ova_cms.iter().map(|c| c.f1_score()).collect(),
+    })
+}
+
+fn close(a: f64, b: f64, tol: f64) -> bool {
+    if a.is_nan() || b.is_nan() {
+        return a.is_nan() && b.is_nan();
+    }
+    if a.is_infinite() || b.is_infinite() {
+        return a == b;
+    }
+    (a - b).abs() <= tol * (1.0 + a.abs().max(b.abs()))
+}
+
+fn fbeta(beta: f64, p: f64, r: f64) -> f64 {
+    let sb = beta * beta;
+    (1.0 + sb) * (p * r) / (sb * p + r)
+}
+
+/// first-principles oracle for the confusion matrix and everything derived from it
+fn oracle_cm<L: Ord + Clone + Eq>(ctx: &mut Ctx, pred: &[L], truth: &[L], tok: &dyn Fn(&L) -> String, o: &CmObs) {
+    let n = pred.len();
+    let set: BTreeSet<&L> = pred.iter().chain(truth.iter()).collect();
+    let mut cs: Vec<&L> = set.into_iter().collect();
+    if cs.len() == 2 {
+        cs.reverse();
+    }
+    let k = cs.len();
+    let kc = if k == 2 { "binary" } else if k < 2 { "single" } else { "multi" };
+    let class = format!("cm:classes={}", kc);
+    let want_members: Vec<String> = cs.iter().map(|l| tok(l)).collect();
+    ctx.require(o.members == want_members, "members_sorted_union", &class, || format!("members {:?}, want {:?}", o.members, want_members));
+    if o.members != want_members {
+        return;
+    }
+    let cnt = |f: &dyn Fn(&L, &L) -> bool| -> u64 { pred.iter().zip(truth.iter()).filter(|(p, t)| f(p, t)).count() as u64 };
+    let want: Vec<Vec<u64>> = (0..k).map(|i| (0..k).map(|j| cnt(&|p, t| p == cs[i] && t == cs[j])).collect()).collect();
+    ctx.require(o.cells == want, "cells_count_pairs", &class, || format!("cells {:?}, want {:?}", o.cells, want));
+    let s: u64 = o.cells.iter().flatten().sum();
+    ctx.require(s == n as u64, "cells_sum_n", &class, || format!("cells sum to {} for {} samples", s, n));
+    let eq = cnt(&|p, t| p == t);
+    let acc = eq as f64 / n as f64;
+    ctx.require(close(o.scores[0] as f64, acc, 1e-6), "accuracy", &class, || format!("accuracy {} want {}", o.scores[0], acc));
+    // one-vs-all splits, each cell as a count
+    let ova_want: Vec<Vec<Vec<u64>>> = (0..k)
+        .map(|c| {
+            let tp = cnt(&|p, t| p == cs[c] && t == cs[c]);
+            let fp = cnt(&|p, t| p == cs[c] && t != cs[c]);
+            let fnn = cnt(&|p, t| p != cs[c] && t == cs[c]);
+            let tn = cnt(&|p, t| p != cs[c] && t != cs[c]);
+            vec![vec![tp, fp], vec![fnn, tn]]
+        })
+        .collect();
+    ctx.require(o.ova == ova_want, "one_vs_all_cells", &class, || format!("one-vs-all {:?}, want {:?}", o.ova, ova_want));
+    // one-vs-one: documented as N*(N-1)/2 matrices, one per unordered pair of distinct classes
+    let mut ovo_want = vec![];
+    for i in 0..k {
+        for j in (i + 1)..k {
+            ovo_want.push(vec![vec![want[i][i], want[i][j]], vec![want[j][i], want[j][j]]]);
+        }
+    }
+    ctx.require(o.ovo.len() == k * k.saturating_sub(1) / 2, "one_vs_one_count", &class, || format!("{} one-vs-one matrices for {} classes, documented N*(N-1)/2 = {}", o.ovo.len(), k, k * k.saturating_sub(1) / 2));
+    if o.ovo.len() == ovo_want.len() {
+        ctx.require(o.ovo == ovo_want, "one_vs_one_cells", &class, || format!("one-vs-one {:?}, want {:?}", o.ovo, ovo_want));
+    }
+    // documented cell formulas: precision = m00/(m00+m10), recall = m00/(m00+m01) on 2x2,
+    // macro average over the one-vs-all splits otherwise
+    let pb = |m: &Vec<Vec<u64>>| m[0][0] as f64 / (m[0][0] as f64 + m[1][0] as f64);
+    let rb = |m: &Vec<Vec<u64>>| m[0][0] as f64 / (m[0][0] as f64 + m[0][1] as f64);
+    let (p, r) = if k == 2 {
+        (pb(&want), rb(&want))
+    } else {
+        (ova_want.iter().map(pb).sum::<f64>() / k as f64, ova_want.iter().map(rb).sum::<f64>() / k as f64)
+    };
+    ctx.require(close(o.scores[1] as f64, p, 1e-5), "precision_documented", &class, || format!("precision {} want {}", o.scores[1], p));
+    ctx.require(close(o.scores[2] as f64, r, 1e-5), "recall_documented", &class, || format!("recall {} want {}", o.scores[2], r));
+    ctx.require(close(o.scores[3] as f64, fbeta(1.0, p, r), 1e-5), "f_beta", &class, || format!("f1 {} want {}", o.scores[3], fbeta(1.0, p, r)));
+    ctx.require(close(o.scores[4] as f64, fbeta(0.5, p, r), 1e-5), "f_beta", &class, || format!("f0.5 {} want {}", o.scores[4], fbeta(0.5, p, r)));
+    for c in 0..k {
+        let (pc, rc) = (pb(&ova_want[c]), rb(&ova_want[c]));
+        ctx.require(close(o.ovap[c] as f64, pc, 1e-5) && close(o.ovar[c] as f64, rc, 1e-5) && close(o.ovaf[c] as f64, fbeta(1.0, pc, rc), 1e-5), "one_vs_all_scores", &class, || {
+            format!("class {}: precision/recall/f1 {} {} {} want {} {} {}", c, o.ovap[c], o.ovar[c], o.ovaf[c], pc, rc, fbeta(1.0, pc, rc))
+        });
+    }
+    // Matthews correlation (multi-class form; reduces to (tp*tn-fp*fn)/sqrt(..) for two classes)
+    let nn = n as f64;
+    let correct = eq as f64;
+    let pk: Vec<f64> = (0..k).map(|c| cnt(&|p, _| p == cs[c]) as f64).collect();
+    let tk: Vec<f64> = (0..k).map(|c| cnt(&|_, t| t == cs[c]) as f64).collect();
+    let num = correct * nn - pk.iter().zip(tk.iter()).map(|(a, b)| a * b).sum::<f64>();
+    let den = ((nn * nn - pk.iter().map(|a| a * a).sum::<f64>()) * (nn * nn - tk.iter().map(|a| a * a).sum::<f64>())).sqrt();
+    let mcc = num / den;
+    ctx.require(close(o.scores[5] as f64, mcc, 1e-5), "mcc", &class, || format!("mcc {} want {}", o.scores[5], mcc));
+    if k == 2 {
+        let (tp, fp, fnn, tn) = (want[0][0] as f64, want[0][1] as f64, want[1][0] as f64, want[1][1] as f64);
+        let m2 = (tp * tn - fp * fnn) / ((tp + fp) * (tp + fnn) * (tn + fp) * (tn + fnn)).sqrt();
+        ctx.require(close(o.scores[5] as f64, m2, 1e-5), "mcc_binary", &class, || format!("mcc {} want {}", o.scores[5], m2));
+    }
+}
+
+fn same_obs(a: &CmObs, b: &CmObs) -> bool {
+    a.line() == b.line()
+}
+
+fn op_cm<L: linfa::dataset::Label + Display>(em: &mut Em, ty: &str, kind: &str, pred: Vec<L>, truth: Vec<L>, perm: Vec<usize>, tok: &dyn Fn(&L) -> String) {
+    let op = format!("cm ty={} p={} t={}", ty, list(pred.iter(), |x| tok(x)), list(truth.iter(), |x| tok(x)));
+    em.count(&format!("cm:{}", kind));
+    let valid = pred.len() == truth.len() && !pred.is_empty();
+    let class = format!("cm:{}", kind);
+    let body = |ctx: &mut Ctx| {
+        let o = match observe_cm(&pred, &truth, tok) {
+            Ok(o) => o,
+            Err(e) => return e,
+        };
+        if valid {
+            oracle_cm(ctx, &pred, &truth, tok, &o);
+            // one permutation applied to predictions and truths together
+            let pp: Vec<L> = perm.iter().map(|i| pred[*i].clone()).collect();
+            let tt: Vec<L> = perm.iter().map(|i| truth[*i].clone()).collect();
+            match observe_cm(&pp, &tt, tok) {
+                Ok(o2) => ctx.require(same_obs(&o, &o2), "perm_invariant", "cm", || format!("permuted input {:?} gives {} instead of {}", perm, o2.line(), o.line())),
+                Err(e) => ctx.fail("perm_invariant", "cm", format!("permuted input fails: {}", e)),
+            }
+        }
+        o.line()
+    };
+    if valid {
+        em.case_valid(op, &class, body)
+    } else {
+        em.case(op, body)
+    }
+}
+
+const STR_LABELS: [&str; 8] = ["a", "b", "B", "ab", "10", "9", "Zz", "\u{e9}"];
+
+fn cm_dispatch(em: &mut Em, rng: &mut Rng, kind: &str, pred: Vec<usize>, truth: Vec<usize>, variant: usize) {
+    let n = pred.len().min(truth.len());
+    let mut perm: Vec<usize> = (0..n).collect();
+    rng.shuffle(&mut perm);
+    let alphabet = pred.iter().chain(truth.iter()).copied().max().map(|m| m + 1).unwrap_or(0);
+    match variant {
+        1 if alphabet <= 2 => {
+            let f = |v: &Vec<usize>| v.iter().map(|x| *x == 1).collect::<Vec<bool>>();
+            op_cm(em, "n", &format!("{}:bool", kind), f(&pred), f(&truth), perm, &|b: &bool| (*b as u8).to_string());
+        }
+        2 => {
+            // a fixed injection of the small alphabet into strings whose byte order differs from the index order
+            let off = rng.below(STR_LABELS.len());
+            let f = |v: &Vec<usize>| v.iter().map(|x| STR_LABELS[(*x + off) % STR_LABELS.len()].to_string()).collect::<Vec<String>>();
+            op_cm(em, "s", &format!("{}:string", kind), f(&pred), f(&truth), perm, &|s: &String| hexstr(s));
+        }
+        _ => op_cm(em, "n", &format!("{}:usize", kind), pred, truth, perm, &|x: &usize| x.to_string()),
+    }
+}
+
+fn gen_cm(em: &mut Em, rng: &mut Rng) {
+    // exhaustive: every (prediction, truth) pair of label vectors of length n over an alphabet of a labels
+    let plan: &[(usize, usize)] = if em.thorough() { &[(2, 8), (3, 5), (4, 4)] } else { &[(2, 6), (3, 4), (4, 3)] };
+    for &(a, maxn) in plan {
+        for n in 1..=maxn {
+            let total = (a as u64).pow(2 * n as u32);
+            for code in 0..total {
+                let mut c = code;
+                let mut pred = vec![];
+                let mut truth = vec![];
+                for _ in 0..n {
+                    pred.push((c % a as u64) as usize);
+                    c /= a as u64;
+                    truth.push((c % a as u64) as usize);
+                    c /= a as u64;
+                }
+                let variant = (code % 3) as usize;
+                cm_dispatch(em, rng, &format!("exhaustive:a={}", a), pred, truth, variant);
+            }
+        }
+    }
+    // random longer vectors, label sets that differ between the two sides, skewed classes
+    let reps = if em.thorough() { 12000 } else { 700 };
+    for _ in 0..reps {
+        let a = 1 + rng.below(6);
+        let big = rng.chance(1, 8);
+        let n = 1 + rng.below(if big { 200 } else { 30 });
+        let shift = if rng.chance(1, 3) { rng.below(3) } else { 0 };
+        let skew = rng.coin();
+        let mut draw = |rng: &mut Rng, s: usize| -> Vec<usize> {
+            (0..n).map(|_| if skew && rng.chance(2, 3) { s } else { s + rng.below(a) }).collect()
+        };
+        let pred = draw(rng, 0);
+        let truth = draw(rng, shift);
+        let variant = rng.below(3);
+        cm_dispatch(em, rng, "random", pred, truth, variant);
+    }
+    // malformed: lengths differ (MismatchedShapes)
+    for _ in 0..20 {
+        let n = 1 + rng.below(6);
+        let m = n + 1 + rng.below(3);
+        let pred: Vec<usize> = (0..n).map(|_| rng.below(3)).collect();
+        let truth: Vec<usize> = (0..m).map(|_| rng.below(3)).collect();
+        let (p, t) = if rng.coin() { (pred, truth) } else { (truth, pred) };
+        op_cm(em, "n", "mismatched", p, t, vec![], &|x: &usize| x.to_string());
+    }
+}
+
+// ------------------------------------------------------------------ ROC / AUC / log-loss
+
+struct RocObs {
+    curve: Vec<(f32, f32)>,
+    thr: Vec<f32>,
+    auc: f32,
+}
+impl RocObs {
+    fn line(&self) -> String {
+        format!("ok curve={} thr={} auc={}", list2(self.curve.iter().map(|p| [p.0, p.1]), |x| h32c(x)), list(self.thr.iter(), |x| h32c(*x)), h32c(self.auc))
+    }
+}
+fn observe_roc(s: &[f32], y: &[bool]) -> RocObs {
+    let pr: Vec<Pr> = s.iter().map(|x| Pr::new_unchecked(*x)).collect();
+    let sl: &[Pr] = &pr;
+    let roc = sl.roc(y).expect("roc");
+    RocObs { curve: roc.get_curve(), thr: roc.get_thresholds(), auc: roc.area_under_curve() }
+}
+
+fn op_roc(em: &mut Em, kind: &str, s: Vec<f32>, y: Vec<bool>, perm: Vec<usize>) {
+    let op = format!("roc s={} y={}", list(s.iter(), |x| hex32(*x)), list(y.iter(), |b| (*b as u8).to_string()));
+    let npos = y.iter().filter(|b| **b).count();
+    let nneg = y.len() - npos;
+    let in_range = s.iter().all(|x| *x >= 0.0 && *x <= 1.0);
+    // distinct scores closer than the grouping threshold 1e-10 are merged by the code (documented
+    // limit); the Mann-Whitney claim is checked only when there are none
+    let mut sorted = s.clone();
+    sorted.sort_by(|a, b| a.partial_cmp(b).unwrap());
+    let separated = sorted.windows(2).all(|w| w[0] == w[1] || (w[1] - w[0]) > 2e-10);
+    let covered = npos > 0 && nneg > 0 && in_range && separated;
+    let has_zero = s.iter().any(|x| *x == 0.0);
+    let has_tie = sorted.windows(2).any(|w| w[0] == w[1]);
+    em.count(&format!("roc:{}", kind));
+    if covered {
+        em.count(if has_zero { "roc:lowest_score_zero" } else { "roc:lowest_score_positive" });
+        if has_tie {
+            em.count("roc:tied_scores");
+        }
+    }
+    let class = format!("roc:min_score={}", if has_zero { "zero" } else { "positive" });
+    let body = |ctx: &mut Ctx| {
+        let o = observe_roc(&s, &y);
+        if covered {
+            let first = o.curve.first().copied();
+            let last = o.curve.last().copied();
+            ctx.require(first == Some((0.0, 0.0)), "roc_starts_at_origin", &class, || format!("curve starts at {:?}: {:?}", first, o.curve));
+            ctx.require(last == Some((1.0, 1.0)), "roc_ends_at_one", &class, || format!("curve ends at {:?}", last));
+            ctx.require(o.curve.windows(2).all(|w| w[0].0 <= w[1].0 && w[0].1 <= w[1].1), "roc_monotone", &class, || format!("curve not monotone: {:?}", o.curve));
+            let mut distinct = sorted.clone();
+            distinct.dedup();
+            ctx.require(o.thr == distinct, "roc_thresholds_distinct_scores", &class, || format!("thresholds {:?}, distinct scores {:?}", o.thr, distinct));
+            // Mann-Whitney with ties one half
+            let mut mw = 0.0f64;
+            for i in 0..s.len() {
+                if !y[i] {
+                    continue;
+                }
+                for j in 0..s.len() {
+                    if y[j] {
+                        continue;
+                    }
+                    if s[j] < s[i] {
+                        mw += 1.0;
+                    } else if s[j] == s[i] {
+                        mw += 0.5;
+                    }
+                }
+            }
+            mw /= (npos * nneg) as f64;
+            ctx.require(close(o.auc as f64, mw, 2e-6), "auc_eq_mann_whitney", &class, || format!("AUC {} but Mann-Whitney statistic {} (scores {:?} labels {:?})", o.auc, mw, s, y));
+            let sp: Vec<f32> = perm.iter().map(|i| s[*i]).collect();
+            let yp: Vec<bool> = perm.iter().map(|i| y[*i]).collect();
+            let o2 = observe_roc(&sp, &yp);
+            ctx.require(o2.line() == o.line(), "perm_invariant", "roc", || format!("permuted input {:?} gives {} instead of {}", perm, o2.line(), o.line()));
+        } else {
+            ctx.mark_trivial();
+        }
+        o.line()
+    };
+    if covered {
+        em.case_valid(op, &class, body)
+    } else {
+        em.case(op, body)
+    }
+}
+
+const LATTICE5: [f32; 5] = [0.0, 0.25, 0.5, 0.75, 1.0];
+
+fn multisets(items: usize, size: usize, start: usize, cur: &mut Vec<usize>, out: &mut Vec<Vec<usize>>) {
+    if cur.len() == size {
+        out.push(cur.clone());
+        return;
+    }
+    for i in start..items {
+        cur.push(i);
+        multisets(items, size, i, cur, out);
+        cur.pop();
+    }
+}
+
+fn gen_roc(em: &mut Em, rng: &mut Rng) {
+    // every ordered (score, label) vector over the 5-point lattice incl. 0 and 1
+    let maxn = if em.thorough() { 4 } else { 3 };
+    for n in 1..=maxn {
+        let total = 10u64.pow(n as u32);
+        for code in 0..total {
+            let mut c = code;
+            let mut s = vec![];
+            let mut y = vec![];
+            for _ in 0..n {
+                let d = (c % 10) as usize;
+                c /= 10;
+                s.push(LATTICE5[d / 2]);
+                y.push(d % 2 == 1);
+            }
+            let mut perm: Vec<usize> = (0..n).collect();
+            rng.shuffle(&mut perm);
+            op_roc(em, "exhaustive_ordered", s, y, perm);
+        }
+    }
+    // every multiset of (score, label) items of the next sizes, in a random order
+    let sizes: &[usize] = if em.thorough() { &[5, 6, 7, 8] } else { &[4, 5, 6] };
+    for &n in sizes {
+        let mut out = vec![];
+        multisets(10, n, 0, &mut vec![], &mut out);
+        for ms in out {
+            let mut items = ms.clone();
+            rng.shuffle(&mut items);
+            let s: Vec<f32> = items.iter().map(|d| LATTICE5[d / 2]).collect();
+            let y: Vec<bool> = items.iter().map(|d| d % 2 == 1).collect();
+            let mut perm: Vec<usize> = (0..n).collect();
+            rng.shuffle(&mut perm);
+            op_roc(em, "exhaustive_multiset", s, y, perm);
+        }
+    }
+    // random: finer lattice, generic f32 scores, heavy ties
+    let reps = if em.thorough() { 15000 } else { 600 };
+    for _ in 0..reps {
+        let big = rng.chance(1, 10);
+        let n = 2 + rng.below(if big { 300 } else { 40 });
+        let mode = rng.below(3);
+        let s: Vec<f32> = (0..n)
+            .map(|_| match mode {
+                0 => rng.below(17) as f32 / 16.0,
+                1 => rng.unit() as f32,
+                _ => *rng.pick(&[0.0f32, 0.1, 0.5, 0.9, 1.0]),
+            })
+            .collect();
+        let y: Vec<bool> = (0..n).map(|_| rng.coin()).collect();
+        let mut perm: Vec<usize> = (0..n).collect();
+        rng.shuffle(&mut perm);
+        op_roc(em, "random", s, y, perm);
+    }
+    // outside the Mann-Whitney claim (model vs code only): scores chained within 1e-10, negative
+    // scores (filtered out by the code), a single class
+    for _ in 0..(if em.thorough() { 1500 } else { 150 }) {
+        let n = 2 + rng.below(10);
+        let s: Vec<f32> = (0..n)
+            .map(|_| match rng.below(6) {
+                0 => 0.0,
+                1 => 5e-11,
+                2 => 1.2e-10,
+                3 => 2.1e-10,
+                4 => -0.25,
+                _ => rng.below(5) as f32 / 4.0,
+            })
+            .collect();
+        let y: Vec<bool> = (0..n).map(|_| rng.chance(3, 4)).collect();
+        let mut perm: Vec<usize> = (0..n).collect();
+        rng.shuffle(&mut perm);
+        op_roc(em, "uncovered", s, y, perm);
+    }
+}
+
+fn op_logloss(em: &mut Em, kind: &str, s: Vec<f32>, y: Vec<bool>) {
+    let op = format!("logloss s={} y={}", list(s.iter(), |x| hex32(*x)), list(y.iter(), |b| (*b as u8).to_string()));
+    em.count(&format!("logloss:{}", kind));
+    let body = |ctx: &mut Ctx| {
+        let pr: Array1<Pr> = s.iter().map(|x| Pr::new_unchecked(*x)).collect();
+        match pr.log_loss(y.as_slice()) {
+            Ok(v) => {
+                // mean clipped negative log-likelihood, in f64
+                let eps = f32::EPSILON as f64;
+                let mut sum = 0.0f64;
+                for (p, b) in s.iter().zip(y.iter()) {
+                    let a = (*p as f64).max(eps).min((1.0f32 - f32::EPSILON) as f64);
+                    sum += if *b { -a.ln() } else { -(1.0 - a).ln() };
+                }
+                let want = sum / s.len() as f64;
+                ctx.require(close(v as f64, want, 1e-5), "log_loss_def", "logloss", || format!("log-loss {} want {}", v, want));
+                format!("ok {}", tl(v as f64))
+            }
+            Err(linfa::Error::NotEnoughSamples) => "err NotEnoughSamples".into(),
+            Err(e) => format!("err {:?}", e),
+        }
+    };
+    if s.is_empty() {
+        em.case(op, body)
+    } else {
+        em.case_valid(op, "logloss", body)
+    }
+}
+
+fn gen_logloss(em: &mut Em, rng: &mut Rng) {
+    op_logloss(em, "empty", vec![], vec![]);
+    let reps = if em.thorough() { 5000 } else { 400 };
+    for _ in 0..reps {
+        let n = 1 + rng.below(20);
+        let mode = rng.below(3);
+        let s: Vec<f32> = (0..n)
+            .map(|_| match mode {
+                0 => rng.below(9) as f32 / 8.0,
+                1 => rng.unit() as f32,
+                _ => *rng.pick(&[0.0f32, 1.0, 1e-9, 1.0 - 1e-7, 0.5]),
+            })
+            .collect();
+        let y: Vec<bool> = (0..n).map(|_| rng.coin()).collect();
+        op_logloss(em, if mode == 1 { "generic" } else { "boundary" }, s, y);
+    }
+}
+
+// ------------------------------------------------------------------ regression
+
+const NAMES: [&str; 8] = ["max", "mae", "mse", "med", "mape", "r2", "ev", "msle"];
+
+/// the eight scores of one column through the public API; `None` = `Err(NotEnoughSamples)`,
+/// `-inf` (max_error of nothing) or a panic (median of nothing)
+fn reg_scores_single<F: linfa::Float>(a: &Array1<F>, b: &Array1<F>) -> Vec<Option<F>> {
+    let g = |f: &dyn Fn() -> linfa::error::Result<F>| -> Option<F> {
+        match catch_unwind(AssertUnwindSafe(|| f())) {
+            Ok(Ok(v)) => Some(v),
+            _ => None,
+        }
+    };
+    let mx = g(&|| a.max_error(b)).and_then(|v| if v == F::neg_infinity() { None } else { Some(v) });
+    vec![
+        mx,
+        g(&|| a.mean_absolute_error(b)),
+        g(&|| a.mean_squared_error(b)),
+        g(&|| a.median_absolute_error(b)),
+        g(&|| a.mean_absolute_percentage_error(b)),
+        g(&|| a.r2(b)),
+        g(&|| a.explained_variance(b)),
+        g(&|| a.mean_squared_log_error(b)),
+    ]
+}
+fn reg_scores_multi<F: linfa::Float>(a: &Array2<F>, b: &Array2<F>) -> Vec<Vec<Option<F>>> {
+    // [metric][column]
+    let p = a.ncols();
+    let g = |f: &dyn Fn() -> linfa::error::Result<Array1<F>>| -> Vec<Option<F>> {
+        match catch_unwind(AssertUnwindSafe(|| f())) {
+            Ok(Ok(v)) => v.iter().map(|x| Some(*x)).collect(),
+            _ => vec![None; p],
+        }
+    };
+    vec![
+        g(&|| a.max_error(b)),
+        g(&|| a.mean_absolute_error(b)),
+        g(&|| a.mean_squared_error(b)),
+        g(&|| a.median_absolute_error(b)),
+        g(&|| a.mean_absolute_percentage_error(b)),
+        g(&|| a.r2(b)),
+        g(&|| a.explained_variance(b)),
+        g(&|| a.mean_squared_log_error(b)),
+    ]
+}
+
+/// observed scores [metric][column] as f64 (f32 widened exactly)
+fn observe_reg(w: usize, p: usize, a: &[Vec<f64>], b: &[Vec<f64>]) -> Vec<Vec<Option<f64>>> {
+    let n = a.len();
+    fn conv<F: linfa::Float>(n: usize, p: usize, a: &[Vec<f64>], b: &[Vec<f64>]) -> Vec<Vec<Option<f64>>> {
+        let to = |x: Option<F>| x.map(|v| v.to_f64().unwrap());
+        if p == 1 {
+            let aa: Array1<F> = a.iter().map(|r| F::cast(r[0])).collect();
+            let bb: Array1<F> = b.iter().map(|r| F::cast(r[0])).collect();
+            reg_scores_single(&aa, &bb).into_iter().map(|x| vec![to(x)]).collect()
+        } else {
+            let aa = Array2::from_shape_fn((n, p), |(i, j)| F::cast(a[i][j]));
+            let bb = Array2::from_shape_fn((n, p), |(i, j)| F::cast(b[i][j]));
+            reg_scores_multi(&aa, &bb).into_iter().map(|v| v.into_iter().map(to).collect()).collect()
+        }
+    }
+    if w == 64 { conv::<f64>(n, p, a, b) } else { conv::<f32>(n, p, a, b) }
+}
+
+fn reg_line(w: usize, exact: bool, obs: &[Vec<Option<f64>>]) -> String {
+    // mape divides before summing: its terms are not exact even on the lattice, so ndarray's
+    // unrolled sum may round differently from the left-to-right sum; always a tolerant token
+    let show = |x: &Option<f64>, inexact_term: bool| -> String {
+        match x {
+            None => "none".into(),
+            Some(v) => {
+                if exact && !inexact_term {
+                    if w == 64 { hex64c(*v) } else { h32c(*v as f32) }
+                } else {
+                    tl(*v)
+                }
+            }
+        }
+    };
+    let mut parts = vec![];
+    for (k, nm) in NAMES.iter().enumerate() {
+        if exact && *nm == "msle" {
+            continue;
+        }
+        parts.push(format!("{}={}", nm, list(obs[k].iter(), |x| show(x, *nm == "mape"))));
+    }
+    format!("ok {}", parts.join(" "))
+}
+
+/// textbook definitions in f64 on one column; returns the wanted values (None = not covered)
+fn oracle_reg_col(ctx: &mut Ctx, w: usize, col: usize, a: &[f64], b: &[f64], obs: &[Vec<Option<f64>>]) {
+    let n = a.len();
+    if n == 0 {
+        return;
+    }
+    let nf = n as f64;
+    let tol = if w == 64 { 1e-9 } else { 2e-4 };
+    let err: Vec<f64> = a.iter().zip(b.iter()).map(|(x, y)| x - y).collect();
+    let get = |k: usize| obs[k][col];
+    let mut chk = |ctx: &mut Ctx, k: usize, clause: &str, class: &str, want: f64, slack: f64| {
+        let ok = match get(k) {
+            Some(v) => close(v, want, tol) || (v - want).abs() <= slack,
+            None => false,
+        };
+        ctx.require(ok, clause, class, || format!("{} column {}: got {:?}, definition gives {} (a={:?} b={:?})", NAMES[k], col, get(k), want, a, b));
+    };
+    let cls = format!("reg:f{}", w);
+    chk(ctx, 0, "max_error_def", &cls, err.iter().fold(f64::NEG_INFINITY, |m, e| m.max(e.abs())), 0.0);
+    chk(ctx, 1, "mae_def", &cls, err.iter().map(|e| e.abs()).sum::<f64>() / nf, 0.0);
+    chk(ctx, 2, "mse_def", &cls, err.iter().map(|e| e * e).sum::<f64>() / nf, 0.0);
+    let mut ae: Vec<f64> = err.iter().map(|e| e.abs()).collect();
+    ae.sort_by(|x, y| x.partial_cmp(y).unwrap());
+    let med = if n % 2 == 1 { ae[n / 2] } else { (ae[n / 2 - 1] + ae[n / 2]) / 2.0 };
+    chk(ctx, 3, "median_def", &cls, med, 0.0);
+    if a.iter().all(|x| *x != 0.0) {
+        // percentage error relative to the receiver
+        chk(ctx, 4, "mape_def", &cls, err.iter().zip(a.iter()).map(|(e, x)| (e / x).abs()).sum::<f64>() / nf, 0.0);
+    }
+    let mean_b = b.iter().sum::<f64>() / nf;
+    let sstot = b.iter().map(|y| (y - mean_b) * (y - mean_b)).sum::<f64>();
+    let ssres = err.iter().map(|e| e * e).sum::<f64>();
+    let scale = b.iter().fold(0.0f64, |m, y| m.max(y.abs())).max(1e-300);
+    // "non-constant truth" with a margin that keeps the quotient well conditioned
+    if sstot > 1e-3 * scale * scale {
+        // the code regularises the denominator by 1e-10: exact size of that documented deviation
+        let slack = |s: f64| 1.01e-10 * s.abs() / (sstot * (sstot + 1e-10)) + if w == 32 { 2e-4 * (1.0 + s.abs() / sstot) } else { 1e-9 * (1.0 + s.abs() / sstot) };
+        chk(ctx, 5, "r2_def", &cls, 1.0 - ssres / sstot, slack(ssres));
+        let mean_e = err.iter().sum::<f64>() / nf;
+        let var_e = err.iter().map(|e| (e - mean_e) * (e - mean_e)).sum::<f64>();
+        let zero_mean = mean_e.abs() <= 1e-12 * (1.0 + err.iter().fold(0.0f64, |m, e| m.max(e.abs())));
+        let ecls = format!("explained_variance:mean_error={}", if zero_mean { "zero" } else { "nonzero" });
+        chk(ctx, 6, "explained_variance_textbook", &ecls, 1.0 - var_e / sstot, slack(var_e));
+    }
+    if a.iter().chain(b.iter()).all(|x| 1.0 + *x > 1e-6) {
+        let l: Vec<f64> = a.iter().zip(b.iter()).map(|(x, y)| (1.0 + x).ln() - (1.0 + y).ln()).collect();
+        chk(ctx, 7, "msle_def", &cls, l.iter().map(|e| e * e).sum::<f64>() / nf, 0.0);
+    }
+}
+
+fn op_reg(em: &mut Em, exact: bool, kind: &str, w: usize, p: usize, a: Vec<Vec<f64>>, b: Vec<Vec<f64>>, perm: Vec<usize>) {
+    let name = if exact { "reg" } else { "regt" };
+    let op = format!(
+        "{} w={} p={} a={} b={}",
+        name,
+        w,
+        p,
+        list2(a.iter().map(|r| r.iter()), |x| hex64(*x)),
+        list2(b.iter().map(|r| r.iter()), |x| hex64(*x))
+    );
+    em.count(&format!("{}:{}:f{}:p={}", name, kind, w, if p == 1 { "1" } else { "multi" }));
+    let n = a.len();
+    let body = |ctx: &mut Ctx| {
+        let obs = observe_reg(w, p, &a, &b);
+        for c in 0..p {
+            let ca: Vec<f64> = a.iter().map(|r| r[c]).collect();
+            let cb: Vec<f64> = b.iter().map(|r| r[c]).collect();
+            oracle_reg_col(ctx, w, c, &ca, &cb, &obs);
+        }
+        if n > 0 {
+            let ap: Vec<Vec<f64>> = perm.iter().map(|i| a[*i].clone()).collect();
+            let bp: Vec<Vec<f64>> = perm.iter().map(|i| b[*i].clone()).collect();
+            let obs2 = observe_reg(w, p, &ap, &bp);
+            let same = {
+                obs.iter().flatten().zip(obs2.iter().flatten()).all(|(x, y)| match (x, y) {
+                    (Some(x), Some(y)) => close(*x, *y, if w == 64 { 1e-9 } else { 2e-4 }),
+                    (None, None) => true,
+                    _ => false,
+                })
+            };
+            ctx.require(same, "perm_invariant", "reg", || format!("permuted input {:?} gives {} instead of {}", perm, reg_line(w, exact, &obs2), reg_line(w, exact, &obs)));
+        }
+        reg_line(w, exact, &obs)
+    };
+    em.case(op, body)
+}
+
+fn gen_reg(em: &mut Em, rng: &mut Rng) {
+    // lattice stream: multiples of 1/4 in [-8, 8]; every sum, square and mean-deviation below is exact
+    // when n is a power of two, and the code/model operation orders coincide otherwise up to exact sums
+    let reps = if em.thorough() { 12000 } else { 900 };
+    for r in 0..reps {
+        let w = if rng.chance(1, 3) { 32 } else { 64 };
+        let p = if rng.chance(1, 4) { 2 + rng.below(2) } else { 1 };
+        // n <= 7: ndarray's unrolled sum is the left-to-right sum; n = 8, 16 (f64 only): means are exact,
+        // so every term of every sum is exact and the order of summation is immaterial
+        let n = if r < 3 { r } else if w == 64 { *rng.pick(&[1usize, 2, 2, 3, 4, 4, 5, 6, 7, 8, 8, 16]) } else { 1 + rng.below(7) };
+        if n == 0 && p > 1 {
+            continue;
+        }
+        let mode = rng.below(4);
+        let mut a = vec![vec![0.0; p]; n];
+        let mut b = vec![vec![0.0; p]; n];
+        for c in 0..p {
+            let shift = if rng.chance(1, 4) { 16.0 } else { 0.0 };
+            for i in 0..n {
+                b[i][c] = rng.range(-16, 16) as f64 / 4.0 + shift;
+            }
+            match mode {
+                0 => {
+                    // zero-sum perturbation (mean error exactly 0)
+                    let mut e: Vec<f64> = (0..n).map(|_| rng.range(-8, 8) as f64 / 4.0).collect();
+                    let s: f64 = e.iter().sum();
+                    if n > 0 {
+                        e[0] -= s;
+                    }
+                    for i in 0..n {
+                        a[i][c] = b[i][c] + e[i];
+                    }
+                }
+                1 => {
+                    // constant offset (shift of the prediction)
+                    let o = rng.range(-8, 8) as f64 / 2.0;
+                    for i in 0..n {
+                        a[i][c] = b[i][c] + o + rng.range(-2, 2) as f64 / 4.0;
+                    }
+                }
+                2 => {
+                    for i in 0..n {
+                        a[i][c] = b[i][c];
+                    }
+                    if n > 0 && rng.coin() {
+                        let i = rng.below(n);
+                        a[i][c] += 1.0;
+                    }
+                }
+                _ => {
+                    for i in 0..n {
+                        a[i][c] = rng.range(-16, 16) as f64 / 4.0;
+                    }
+                }
+            }
+            // constant truth now and then (outside the r2 claim, inside the correspondence)
+            if rng.chance(1, 20) {
+                for i in 0..n {
+                    b[i][c] = 1.5;
+                }
+            }
+        }
+        let mut perm: Vec<usize> = (0..n).collect();
+        rng.shuffle(&mut perm);
+        op_reg(em, true, "lattice", w, p, a, b, perm);
+    }
+    // generic stream: log-uniform scales, offsets, positive values (so msle is defined)
+    let reps = if em.thorough() { 6000 } else { 400 };
+    for _ in 0..reps {
+        let w = if rng.chance(1, 3) { 32 } else { 64 };
+        let p = if rng.chance(1, 4) { 2 } else { 1 };
+        let big = rng.chance(1, 10);
+        let n = 2 + rng.below(if big { 200 } else { 30 });
+        let scale = 10f64.powf(rng.unit() * 6.0 - 3.0);
+        let off = if rng.coin() { 0.0 } else { scale * (rng.unit() * 20.0) };
+        let positive = rng.coin();
+        let mut a = vec![vec![0.0; p]; n];
+        let mut b = vec![vec![0.0; p]; n];
+        for c in 0..p {
+            for i in 0..n {
+                let t = if positive { rng.unit() } else { rng.unit() * 2.0 - 1.0 };
+                let y = off + scale * t;
+                let x = y + scale * 0.3 * (rng.unit() - 0.4);
+                let (x, y) = if positive { (x.abs() + 1e-3 * scale, y.abs() + 1e-3 * scale) } else { (x, y) };
+                // values travel as f64 bits; for the f32 runs round first so both sides see the same input
+                a[i][c] = if w == 32 { x as f32 as f64 } else { x };
+                b[i][c] = if w == 32 { y as f32 as f64 } else { y };
+            }
+        }
+        let mut perm: Vec<usize> = (0..n).collect();
+        rng.shuffle(&mut perm);
+        op_reg(em, false, "generic", w, p, a, b, perm);
+    }
+}
+
+// ------------------------------------------------------------------ silhouette
+
+fn observe_sil(x: &[Vec<f64>], l: &[usize]) -> f64 {
+    let n = x.len();
+    let d = x[0].len();
+    let rec = Array2::from_shape_fn((n, d), |(i, j)| x[i][j]);
+    let ds = Dataset::new(rec, Array1::from(l.to_vec()));
+    ds.silhouette_score().expect("silhouette")
+}
+
+fn op_sil(em: &mut Em, kind: &str, x: Vec<Vec<f64>>, l: Vec<usize>, perm: Vec<usize>) {
+    let op = format!("sil x={} l={}", list2(x.iter().map(|r| r.iter()), |v| hex64(*v)), list(l.iter(), |v| v.to_string()));
+    let n = x.len();
+    let dist = |i: usize, j: usize| -> f64 { x[i].iter().zip(x[j].iter()).map(|(a, b)| (a - b) * (a - b)).sum::<f64>().sqrt() };
+    let mut labels: Vec<usize> = l.clone();
+    labels.sort();
+    labels.dedup();
+    // covered: two or more clusters, each with at least two distinct points
+    let covered = labels.len() >= 2
+        && labels.iter().all(|c| {
+            let members: Vec<usize> = (0..n).filter(|i| l[*i] == *c).collect();
+            members.len() >= 2 && members.iter().any(|i| x[*i] != x[members[0]])
+        });
+    em.count(&format!("sil:{}:{}", kind, if covered { "covered" } else { "degenerate" }));
+    let body = |ctx: &mut Ctx| {
+        let v = observe_sil(&x, &l);
+        if covered {
+            let mut total = 0.0;
+            for i in 0..n {
+                let own: Vec<usize> = (0..n).filter(|j| *j != i && l[*j] == l[i]).collect();
+                let a = own.iter().map(|j| dist(i, *j)).sum::<f64>() / own.len() as f64;
+                let b = labels
+                    .iter()
+                    .filter(|c| **c != l[i])
+                    .map(|c| {
+                        let m: Vec<usize> = (0..n).filter(|j| l[*j] == *c).collect();
+                        m.iter().map(|j| dist(i, *j)).sum::<f64>() / m.len() as f64
+                    })
+                    .fold(f64::INFINITY, f64::min);
+                total += (b - a) / a.max(b);
+            }
+            let want = total / n as f64;
+            ctx.require(close(v, want, 1e-9), "silhouette_def", "sil", || format!("silhouette {} want {}", v, want));
+            let xp: Vec<Vec<f64>> = perm.iter().map(|i| x[*i].clone()).collect();
+            let lp: Vec<usize> = perm.iter().map(|i| l[*i]).collect();
+            let v2 = observe_sil(&xp, &lp);
+            ctx.require(close(v, v2, 1e-9), "perm_invariant", "sil", || format!("permuted input {:?} gives {} instead of {}", perm, v2, v));
+        }
+        format!("ok {}", tl(v))
+    };
+    if covered {
+        em.case_valid(op, "sil", body)
+    } else {
+        em.case(op, body)
+    }
+}
+
+fn gen_sil(em: &mut Em, rng: &mut Rng) {
+    let reps = if em.thorough() { 6000 } else { 500 };
+    for _ in 0..reps {
+        let d = 1 + rng.below(2);
+        let k = 2 + rng.below(3);
+        let n = if rng.chance(1, 10) { 1 + rng.below(4) } else { 2 * k + rng.below(8) };
+        let spread = 1 + rng.below(6) as i64;
+        let centers: Vec<Vec<i64>> = (0..k).map(|_| (0..d).map(|_| rng.range(-6, 6)).collect()).collect();
+        let mut l: Vec<usize> = (0..n).map(|i| if i < 2 * k { i % k } else { rng.below(k) }).collect();
+        if rng.chance(1, 12) {
+            // degenerate shapes: one cluster, singleton cluster
+            if rng.coin() {
+                l.iter_mut().for_each(|v| *v = 3);
+            } else if n > 0 {
+                l[0] = 9;
+            }
+        }
+        let x: Vec<Vec<f64>> = (0..n).map(|i| (0..d).map(|j| (centers[l[i] % k][j] + rng.range(-spread, spread)) as f64).collect()).collect();
+        let mut perm: Vec<usize> = (0..n).collect();
+        rng.shuffle(&mut perm);
+        op_sil(em, &format!("d={}", d), x, l, perm);
+    }
+}
+
+// ------------------------------------------------------------------ Pearson
+
+fn op_pearson(em: &mut Em, kind: &str, x: Vec<Vec<f64>>, p: usize) {
+    let op = format!("pearson x={} p={}", list2(x.iter().map(|r| r.iter()), |v| hex64(*v)), p);
+    let n = x.len();
+    em.count(&format!("pearson:{}", kind));
+    let body = |ctx: &mut Ctx| {
+        let rec = Array2::from_shape_fn((n, p), |(i, j)| x[i][j]);
+        let ds = DatasetBase::from(rec);
+        let co = ds.pearson_correlation();
+        let got: Vec<f64> = co.get_coeffs().to_vec();
+        // textbook: cov / (std std), pairs (i, j), i < j, row-major
+        let col = |j: usize| -> Vec<f64> { x.iter().map(|r| r[j]).collect() };
+        let mut want = vec![];
+        for i in 0..p {
+            for j in (i + 1)..p {
+                let (a, b) = (col(i), col(j));
+                let (ma, mb) = (a.iter().sum::<f64>() / n as f64, b.iter().sum::<f64>() / n as f64);
+                let cov: f64 = a.iter().zip(b.iter()).map(|(u, v)| (u - ma) * (v - mb)).sum();
+                let va: f64 = a.iter().map(|u| (u - ma) * (u - ma)).sum();
+                let vb: f64 = b.iter().map(|v| (v - mb) * (v - mb)).sum();
+                want.push(cov / (va.sqrt() * vb.sqrt()));
+            }
+        }
+        ctx.require(got.len() == want.len(), "pearson_order", "pearson", || format!("{} coefficients for {} features", got.len(), p));
+        if got.len() == want.len() {
+            ctx.require(got.iter().zip(want.iter()).all(|(g, w)| close(*g, *w, 1e-9)), "pearson_def", "pearson", || format!("coefficients {:?} want {:?}", got, want));
+        }
+        format!("ok {}", list(got.iter(), |v| tl(*v)))
+    };
+    em.case_valid(op, "pearson", body)
+}
+
+fn gen_pearson(em: &mut Em, rng: &mut Rng) {
+    let reps = if em.thorough() { 4000 } else { 300 };
+    for _ in 0..reps {
+        let p = 1 + rng.below(4);
+        let n = 3 + rng.below(12);
+        let generic = rng.chance(1, 3);
+        let mut x = vec![vec![0.0; p]; n];
+        for j in 0..p {
+            let off = if rng.chance(1, 3) { 100.0 } else { 0.0 };
+            loop {
+                for i in 0..n {
+                    x[i][j] = off + if generic { rng.unit() * 10.0 - 5.0 } else { rng.range(-8, 8) as f64 };
+                }
+                // every feature non-constant (the coefficient is undefined otherwise)
+                if (1..n).any(|i| x[i][j] != x[0][j]) {
+                    break;
+                }
+            }
+            if j > 0 && rng.chance(1, 4) {
+                // exactly (anti-)correlated with the first column
+                let s = if rng.coin() { 2.0 } else { -0.5 };
+                for i in 0..n {
+                    x[i][j] = s * x[i][0] + 1.0;
+                }
+            }
+        }
+        op_pearson(em, if generic { "generic" } else { "integer" }, x, p);
+    }
+}
+
+pub fn run(em: &mut Em, rng: &mut Rng) {
+    gen_cm(em, rng);
+    gen_roc(em, rng);
+    gen_logloss(em, rng);
+    gen_reg(em, rng);
+    gen_sil(em, rng);
+    gen_pearson(em, rng);
+}
